@@ -448,6 +448,13 @@ func vRunConn(c vCase) []string {
 	if d := atoi("firstdelay"); d > 0 {
 		opts.FirstConnectDelayDuration = time.Duration(d) * time.Millisecond
 	}
+	// options that only the built-in TLS transport's dialer consumes: with a scripted transport they must change nothing
+	if d := atoi("dialertimeout"); d > 0 {
+		opts.DialerTimeout = time.Duration(d) * time.Millisecond
+	}
+	if d := atoi("handshaketimeout"); d > 0 {
+		opts.HandshakeTimeout = time.Duration(d) * time.Millisecond
+	}
 	if w := atoi("window"); w > 0 || c.get("window") == "0" {
 		opts.InitialReconnectBackoffWindow = func() time.Duration { return time.Duration(w) * time.Millisecond }
 	}
